@@ -7,11 +7,43 @@ TEXT = ("Shape contract of WaitMatch.convert evaluated on every call: every reac
         "With the restart-automaton lemma (DESIGN.md C16) this gives: never fails, end-of-input never enters a handler, completes at the first restart-semantics match.")
 
 
+TEXT2 = (" The contract above is on the machine the front end builds. What the optimised machines and the emitted C do with the same wait statements is checked by running the real generated parser "
+         "(-O0 and -O3) on all inputs up to a bound and on inputs guided by the reading, against the restart-semantics reading of the reference interpreter (vf/c01): bounded.")
+
+
 def main():
+    import multiprocessing, os
+    from .. import common, gen
+    from ..common import Finding
+    from . import c01
     sel = lambda c: c.startswith("WaitMatch.convert")
     rep, outs = R.run_contracts("C16", sel, ["WaitMatch.convert"], ["dfa"], "join", TEXT, ["WaitMatch.convert"])
-    return R.finish(rep, TEXT, "C16")
+    # the compiled (optimised) parsers on the wait programs
+    ps = [{"name": p["name"], "src": p["src"]} for p in gen.wait_programs()]
+    thorough = common.tier() == "thorough"
+    jobs = [(p, [["-O0"], ["-O3"]] + ([["-O1"], ["-O2"]] if thorough else []), 1500 if thorough else 500, 1200 if thorough else 300, common.seed(), None) for p in ps]
+    with multiprocessing.get_context("fork").Pool(min(16, os.cpu_count() or 4)) as pool:
+        results = pool.map(c01._work, jobs, chunksize=2)
+    src_of = {p["name"]: p["src"] for p in ps}
+    n = nprog = 0
+    for o in results:
+        if o["status"] == "checked":
+            nprog += 1
+        n += o["checked"]
+        for b in o["bad"] + o["known"]:
+            rep.bounded_violation(Finding("C16", f"C16/compiled/{o['name']}", f"{o['name']}|{' '.join(b['flags'])}|{b['input']}|{'+'.join(b['kinds'])}",
+                                          f"{o['name']} [{' '.join(b['flags'])}] input {b['input']}: {b['msg'][:400]}",
+                                          replay={"source": src_of[o["name"]], "flags": b["flags"], "input": b["input"]}, replayed=True))
+    rep.bounded_count("wait programs: inputs on which the generated parser was compared with the restart-semantics reading", n)
+    rep.coverage["wait_programs_run"] = nprog
+    rep.fn("DfaCompileCtx._optimize_shortcircuit_fallthroughs (on wait statements)")
+    return R.finish(rep, TEXT + TEXT2, "C16")
 
 
 def replay(path):
+    import json
+    d = json.load(open(path))["input"]
+    if "input" in d:
+        from . import c01
+        return c01.replay(path)
     return _replay(path)
